@@ -242,6 +242,10 @@ class Model():
 
         self.assets.remove(asset)
 
+        # The id and name can be used again
+        self.asset_ids.discard(asset.id)
+        self.asset_names.discard(asset.name)
+
     def remove_asset_from_association(
             self,
             asset: SchemaGeneratedClass,
